@@ -34,6 +34,13 @@ func runStream(line string) string {
 		v[i] = n
 	}
 	w, size, channels, messages := v[0], v[1], v[2], v[3]
+	// `mstream <W> <size> <senders> <messages>`: ONE channel with several concurrent senders (they
+	// are serialised by the channel; every one of them must be admitted again after a window update)
+	senders := 1
+	if f[0] == "mstream" {
+		senders, channels = channels, 1
+	}
+	perChannel := uint64(senders) * uint64(messages) * uint64(size)
 	const sendTimeout = 20 * time.Second
 
 	lg := caplog.New()
@@ -45,7 +52,7 @@ func runStream(line string) string {
 				return st
 			}
 			total += uint64(len(msg))
-			if msg[0] == 'L' {
+			if total >= perChannel {
 				break
 			}
 		}
@@ -80,9 +87,8 @@ func runStream(line string) string {
 	defer conn.Close()
 
 	data := make([]byte, size)
-	last := make([]byte, size)
 	for i := range data {
-		data[i], last[i] = 'd', 'L'
+		data[i] = 'd'
 	}
 	var wg sync.WaitGroup
 	var mu sync.Mutex
@@ -107,20 +113,24 @@ func runStream(line string) string {
 				return
 			}
 			defer ch.Free()
-			for i := 0; i < messages; i++ {
-				msg := data
-				if i == messages-1 {
-					msg = last
-				}
-				sctx := async.TimeoutContext(sendTimeout)
-				st := ch.Send(sctx, msg)
-				sctx.Free()
-				if !st.OK() {
-					fail(fmt.Sprintf("send-%d-of-channel-%d-not-admitted-within-%ds-although-the-receiver-consumes-everything:%s",
-						i, c, int(sendTimeout.Seconds()), st.Code))
-					return
-				}
+			var sw sync.WaitGroup
+			for k := 0; k < senders; k++ {
+				sw.Add(1)
+				go func(k int) {
+					defer sw.Done()
+					for i := 0; i < messages; i++ {
+						sctx := async.TimeoutContext(sendTimeout)
+						st := ch.Send(sctx, data)
+						sctx.Free()
+						if !st.OK() {
+							fail(fmt.Sprintf("send-%d-of-sender-%d-of-channel-%d-not-admitted-within-%ds-although-the-receiver-consumes-everything:%s",
+								i, k, c, int(sendTimeout.Seconds()), st.Code))
+							return
+						}
+					}
+				}(k)
 			}
+			sw.Wait()
 			rctx := async.TimeoutContext(sendTimeout)
 			defer rctx.Free()
 			reply, st := ch.Receive(rctx)
